@@ -55,7 +55,7 @@ def build(cfg, like=None):
     kw = dict(prior_transform=pt, log_likelihood=like, n_dim=t.n_dim, n_particles=c["N"],
               ess_ratio=c["ess_ratio"], volume_variation=c["volume_variation"],
               vectorize=(c["mode"] == "vec"),
-              blobs_dtype=("float64" if c["mode"] in ("blobs", "blobs3", "blobview") else [("id", "f8"), ("half", "f8")] if c["mode"] == "blobs2" else None),
+              blobs_dtype=("int64" if c["mode"] == "blobsI" else object if c["mode"] == "blobsS" else "float64" if c["mode"] in ("blobs", "blobs3", "blobview") else [("id", "f8"), ("half", "f8")] if c["mode"] == "blobs2" else None),
               periodic=periodic, reflective=reflective, pool=c["pool"], clustering=c["clustering"],
               normalize=c["normalize"], cluster_every=c["cluster_every"],
               split_threshold=c["split_threshold"], n_max_clusters=c["n_max_clusters"],
